@@ -59,6 +59,12 @@ STMTS = [
     ("x = float(i) + amax1(x, y) + sngl(dble(y)) + alog10(x)", set()),
     ("x = extf(y)", {"extf"}),
     ("x = extg(y) + extf(x)", {"extf", "extg"}),
+    ("call &\n      &s(x)", {"s"}),
+    ("if (p(x)) call   &\n      &s", {"p", "s"}),
+    ("x = &\n      &f(y)", {"f"}),
+    ("associate (app => app%me())\n    x = 1\n    end associate", {"application%me"}),
+    ("associate (u => app%me(), app => f(y))\n    x = 1\n    end associate", {"application%me", "f"}),
+    ("x = carr(1) + darr(2)", set()),
 ]
 USER = {"f", "g", "h", "p", "s", "reset", "emit", "level", "extf", "extg"}
 
@@ -72,16 +78,17 @@ def program(stmts):
     funcs += "  function p(v) result(r)\n    real :: v\n    logical :: r\n    r = .true.\n  end function p\n"
     funcs += "  subroutine s(v)\n    real, optional :: v\n  end subroutine s\n"
     types = ("  type :: logger\n  contains\n    procedure :: reset\n    procedure :: emit\n    procedure :: level\n    procedure :: write => log_write\n    procedure :: size => log_size\n  end type logger\n"
-             "  type :: application\n    type(logger) :: log\n  contains\n    procedure :: reset => app_reset\n  end type application\n")
+             "  type :: application\n    type(logger) :: log\n  contains\n    procedure :: reset => app_reset\n    procedure :: me => app_me\n  end type application\n")
     funcs += "  subroutine log_write(self, v)\n    class(logger) :: self\n    real :: v\n  end subroutine log_write\n"
     funcs += "  function log_size(self) result(r)\n    class(logger) :: self\n    integer :: r\n    r = 0\n  end function log_size\n"
     funcs += "  subroutine app_reset(self)\n    class(application) :: self\n  end subroutine app_reset\n"
+    funcs += "  function app_me(self) result(r)\n    class(application) :: self\n    type(application) :: r\n  end function app_me\n"
     funcs += "  subroutine reset(self)\n    class(logger) :: self\n  end subroutine reset\n"
     funcs += "  subroutine emit(self, v)\n    class(logger) :: self\n    real :: v\n  end subroutine emit\n"
     funcs += "  function level(self, k) result(r)\n    class(logger) :: self\n    integer :: k\n    real :: r\n    r = 0.0\n  end function level\n"
     return ("module m\n  implicit none\n" + types + "contains\n" + funcs +
             "  subroutine driver()\n    real :: x, y, a(10), b(3,3)\n    real, allocatable :: c(:)\n    integer :: i, j, n\n    type(application) :: app\n"
-            "    REAL, EXTERNAL :: extf\n    real, external :: extg\n    dimension dd(5), ee(2, 3)\n" + body +
+            "    REAL, EXTERNAL :: extf\n    real, external :: extg\n    dimension dd(5), ee(2, 3)\n    dimension darr (5)\n    common /cblk/ carr(10)\n" + body +
             "\n  end subroutine driver\nend module m\n"
             "function extf(v) result(r)\n  real :: v, r\n  r = v\nend function extf\nfunction extg(v) result(r)\n  real :: v, r\n  r = v\nend function extg\n")
 
